@@ -11,4 +11,5 @@ NEXT Next
 INVARIANT TypeOK
 INVARIANT Conservation
 INVARIANT NeverTooMany
+INVARIANT NoTaskBeyondItsLargestShare
 PROPERTY Monotone
